@@ -571,7 +571,9 @@ func ExtendVoucher[T protocol.PublicKeyOrChain](v *Voucher, owner crypto.Signer,
 	if err != nil {
 		return nil, err
 	}
-	xv.Entries = append(xv.Entries, *entry)
+	// The clone shares v's entry slice: never append into its spare capacity,
+	// or extending v a second time would overwrite the entry added here.
+	xv.Entries = append(slices.Clip(xv.Entries), *entry)
 	return xv, nil
 }
 
